@@ -280,6 +280,14 @@ def main():
                 break
         if "a was 1" not in msg:
             local.append({"symptom": "representable_argument_missing", "scenario": "result_of_call_or_subscript", "detail": msg[:300]})
+    # 3b'. ... whereas an ordinary value whose class merely defines __get__ (a descriptor-like object passed as an argument) is listed
+    src_d = ("import icontract\nclass Field:\n    def __get__(self, obj, owner=None):\n        return self\n    def __repr__(self):\n        return 'Field()'\n"
+             "@icontract.require(lambda a: a > 5)\ndef f(a, fld):\n    return 1\n")
+    ns_d = core.load_source(src_d, "c20d")
+    msg = violation_message(ns_d["f"], a=1, fld=ns_d["Field"]())
+    out["descriptor_like_argument"] = msg
+    if not has_line(msg, "fld was Field()"):
+        local.append({"symptom": "representable_argument_missing", "scenario": "descriptor_like_argument", "detail": msg[:300]})
     # 3c. ... and the built-in names which are neither functions nor classes (NotImplemented, Ellipsis, __debug__, ...)
     for cond_src, name in (("a is NotImplemented", "NotImplemented"), ("a is Ellipsis", "Ellipsis"), ("__debug__ and a is None", "__debug__"),
                            ("a is not None and a is NotImplemented", "NotImplemented"), ("[a, Ellipsis][0] is None", "Ellipsis")):
